@@ -63,11 +63,18 @@ class Agg:
             cur = self.viol.get(k)
             size = len(json.dumps(jsonable(v["case"])))
             if cur is None:
-                self.viol[k] = dict(fp=jsonable(v["fp"]), what=v["what"], case=jsonable(v["case"]), count=1, size=size)
+                self.viol[k] = dict(fp=jsonable(v["fp"]), what=v["what"], case=jsonable(v["case"]), count=1, size=size, alts=[])
             else:
                 cur["count"] += 1
                 if size < cur["size"]:
+                    cur["alts"].append((cur["what"], cur["case"]))
                     cur.update(what=v["what"], case=jsonable(v["case"]), size=size)
+                else:
+                    cur["alts"].append((v["what"], jsonable(v["case"])))
+                # alternatives: a few more examples of the same fingerprint; those that carry their own history (a first run in the same
+                # process) are kept preferably - they reproduce in a fresh process when the smallest example only failed because of what ran before it
+                hist = [a for a in cur["alts"] if '"prelude": true' in json.dumps(a[1])]
+                cur["alts"] = (hist[:3] + [a for a in cur["alts"] if a not in hist])[:6]
 
 
 def viol(fp, what, case):
@@ -125,21 +132,24 @@ def main(argv=None):
         os.makedirs(rdir, exist_ok=True)
         h = hashlib.sha1(fp_key(v["fp"]).encode()).hexdigest()[:12]
         path = os.path.join(rdir, h + ".json")
-        rec = dict(property=pid, fingerprint=v["fp"], what=v["what"], case=v["case"], count=v["count"])
-        with open(path, "w") as f:
-            json.dump(rec, f, indent=1, sort_keys=True)
-        # determinism: the same record must fail the same way twice in-process and once in a fresh process
-        ok = True
-        for _ in range(2):
-            got = [fp_key(x["fp"]) for x in mod.replay(v["case"])]
-            if fp_key(v["fp"]) not in got:
-                ok = False
-        if ok:
-            p = subprocess.run([PY, os.path.join(VERIF, "mc", "replay.py"), path], capture_output=True, text=True)
-            if p.returncode != 1:
-                ok = False
+        ok = False
+        for what, case in [(v["what"], v["case"])] + list(v.get("alts", [])):
+            rec = dict(property=pid, fingerprint=v["fp"], what=what, case=case, count=v["count"])
+            with open(path, "w") as f:
+                json.dump(rec, f, indent=1, sort_keys=True)
+            # determinism: the same record must fail the same way in a fresh process, twice (the search itself ran in long-lived workers, where an
+            # example may have failed only because of what ran before it; then the next example of the same fingerprint is tried)
+            ok = True
+            for _ in range(2):
+                p = subprocess.run([PY, os.path.join(VERIF, "mc", "replay.py"), path], capture_output=True, text=True)
+                if p.returncode != 1:
+                    ok = False
+                    break
+            if ok:
+                v = dict(v, what=what, case=case)
+                break
         if not ok:
-            print(f"INTERNAL: harness nondeterministic for {pid} {fp_key(v['fp'])} (replay {path} does not reproduce)")
+            print(f"INTERNAL: not reproducible in a fresh process for {pid} {fp_key(v['fp'])} (replay {path}; the example failed only after other work in the same worker process: harness nondeterminism or state leaking between executions)")
             rc = rc or 2
             continue
         print(f"  {v['what']}  [{v['count']}x]  fingerprint={fp_key(v['fp'])}")
